@@ -8,7 +8,13 @@ generic Kombinationen, and a printer that renders ONE description in two ways:
        or renamed); optionally also every generic Kombination replaced by monomorphic ones.
 
 Types are tuples:  ('p',name) primitive | ('l',elem) list | ('s',name) Kombination |
-('g',name,(args..)) instantiated generic Kombination | ('v',name) type parameter.
+('g',name,(args..)) instantiated generic Kombination | ('v',name) type parameter |
+('d',name,base) type definition ("Wir definieren einen Meter als eine Zahl": a NEW type; values are made by converting
+a value of the base type, `(5 als Meter)`, and printed by converting back) |
+('a',name,target) type alias ("Wir nennen eine Zahl auch eine Nummer": the SAME type under another name).
+Aliases are transparent for the model: `canon` removes them, unification binds type parameters to canonical types, so an
+instantiation with an alias IS the instantiation with its target (one specialisation in M, one overload of `zeige`); only
+the places that spell a declared type (variable declarations, casts) keep the alias name.
 """
 
 # ------------------------------------------------------------------ types
@@ -33,6 +39,19 @@ def V(n):
     return ('v', n)
 
 
+def D(n, base, gender='m'):
+    NAMED[n] = gender
+    return ('d', n, base)
+
+
+def A(n, target, gender='f'):
+    NAMED[n] = gender
+    return ('a', n, target)
+
+
+NAMED = {}      # name of a type definition / type alias -> grammatical gender (names are unique per program)
+
+
 ZAHL, KOMMA, BYTE, BOOL, CHAR, TEXT = P('Zahl'), P('Kommazahl'), P('Byte'), P('Wahrheitswert'), P('Buchstabe'), P('Text')
 
 PRIM = {
@@ -50,6 +69,46 @@ ADJ_PUB_DAT = 'öffentlichen'
 ART_ACC_INDEF = {'m': 'einen', 'f': 'eine', 'n': 'ein'}
 ART_DAT_INDEF = {'m': 'einem', 'f': 'einer', 'n': 'einem'}
 PRON_EACH = {'m': 'jeden', 'f': 'jede', 'n': 'jedes'}
+
+
+def canon(t):
+    """the type without type aliases (what the compiler's ddptypes.Equal compares)"""
+    k = t[0]
+    if k == 'a':
+        return canon(t[2])
+    if k == 'l':
+        return ('l', canon(t[1]))
+    if k == 'g':
+        return ('g', t[1], tuple(canon(a) for a in t[2]))
+    return t
+
+
+def named_in(t, acc=None):
+    """the type definitions and type aliases mentioned in t (aliases are not looked through)"""
+    acc = [] if acc is None else acc
+    k = t[0]
+    if k in ('d', 'a'):
+        if t not in acc:
+            acc.append(t)
+    elif k == 'l':
+        named_in(t[1], acc)
+    elif k == 'g':
+        for a in t[2]:
+            named_in(a, acc)
+    return acc
+
+
+def defs_in(t):
+    """type definitions mentioned in t, looking through aliases (alias of a definition)"""
+    out = []
+    for n in named_in(t):
+        x = n
+        while x[0] == 'a':
+            x = x[2]
+        for y in ([x] if x[0] == 'd' else named_in(x)):
+            if y[0] == 'd' and y not in out:
+                out.append(y)
+    return out
 
 
 def subst(t, s):
@@ -82,7 +141,11 @@ def is_concrete(t):
 
 
 def unify(pat, tgt, b):
-    """one-sided: variables of `pat` are bound in b; `tgt` is opaque (its variables are constants)"""
+    """one-sided: variables of `pat` are bound in b; `tgt` is opaque (its variables are constants).
+    Type aliases are transparent: bindings are canonical types"""
+    tgt = canon(tgt)
+    if pat[0] == 'a':
+        pat = canon(pat)
     k = pat[0]
     if k == 'v':
         if pat[1] in b:
@@ -95,7 +158,7 @@ def unify(pat, tgt, b):
         if tgt[0] != 'g' or tgt[1] != pat[1] or len(tgt[2]) != len(pat[2]):
             return False
         return all(unify(p, t, b) for p, t in zip(pat[2], tgt[2]))
-    return pat == tgt
+    return canon(pat) == tgt
 
 
 def list_depth(t):
@@ -117,7 +180,9 @@ def contains_nested_list(t):
 
 def mangle(t):
     k = t[0]
-    if k in ('p', 's', 'v'):
+    if k == 'a':
+        return mangle(canon(t))
+    if k in ('p', 's', 'v', 'd'):
         return t[1]
     if k == 'l':
         return 'L' + mangle(t[1])
@@ -127,6 +192,7 @@ def mangle(t):
 def show_word(t):
     """the overloaded print alias; Kombinationen with two type parameters have their own word (an overload set that mixes
     instantiated Kombinationen of different arity crashes the pinned parser in UnifyGenericType - not this check's subject)"""
+    t = canon(t)
     while t[0] == 'l':
         t = t[1]
     return 'zeige2' if t[0] == 'g' and len(t[2]) > 1 else 'zeige'
@@ -173,6 +239,8 @@ class Lang:
             return 'f'
         if k in ('s', 'g'):
             return self.structs[t[1]].gender
+        if k in ('d', 'a'):
+            return NAMED[t[1]]
         return 'n'  # type parameter: every article is accepted
 
     def mono_name(self, t):
@@ -186,7 +254,7 @@ class Lang:
 
     def tname(self, t):
         k = t[0]
-        if k in ('p', 's', 'v'):
+        if k in ('p', 's', 'v', 'd', 'a'):
             return t[1]
         if k == 'l':
             e = t[1]
@@ -202,7 +270,7 @@ class Lang:
 
     def targ(self, t):
         k = t[0]
-        if k in ('p', 's', 'v'):
+        if k in ('p', 's', 'v', 'd', 'a'):
             return t[1]
         if k == 'g' and self.mono and is_concrete(t):
             self.note_ginst(t)
@@ -265,7 +333,10 @@ class Lang:
             a = ART_DAT_INDEF[self.gender(t)]
             return 'der Standardwert von %s %s' % (a, self.tname(t))
         if k == 'cast':
-            return '%s als %s' % (self.atom(e[1], ctx), self.tname(e[2]))
+            inner = self.atom(e[1], ctx)
+            if inner.startswith('-'):
+                inner = '(' + inner + ')'       # `als` binds tighter than the unary minus
+            return '%s als %s' % (inner, self.tname(e[2]))
         if k == 'listlit':
             if not e[2]:
                 return 'eine leere %s' % self.tname(L(e[1]))
@@ -489,7 +560,9 @@ class Ctx:
         if k in ('lit', 'rawexpr'):
             return e[1]
         if k == 'field':
-            st = self.etype(e[2])
+            st = canon(self.etype(e[2]))
+            if st[0] not in ('s', 'g'):
+                raise TypeErrorInModel('field of non-Kombination')
             sd = self.prog.structs[st[1]]
             for fn, ft in sd.fields:
                 if fn == e[1]:
@@ -498,7 +571,7 @@ class Ctx:
                     return ft
             raise TypeErrorInModel('no field ' + e[1])
         if k == 'index':
-            lt = self.etype(e[1])
+            lt = canon(self.etype(e[1]))
             if lt == TEXT:
                 return CHAR
             if lt[0] != 'l':
@@ -507,7 +580,7 @@ class Ctx:
         if k == 'len':
             return ZAHL
         if k == 'concat':
-            a, b = self.etype(e[1]), self.etype(e[2])
+            a, b = canon(self.etype(e[1])), canon(self.etype(e[2]))
             if a[0] == 'l':
                 return a
             if b[0] == 'l':
